@@ -192,10 +192,12 @@ def findings_for(prop_id):
     for f in load_findings():
         props = f.get("properties", {})
         entry = props.get(prop_id)
-        if entry is None:
-            for other in props.values():
+        if entry is not None:
+            entry = dict(entry, _primary=prop_id)
+        else:
+            for other_id, other in props.items():
                 if prop_id in other.get("also", []):
-                    entry = other
+                    entry = dict(other, _primary=other_id)
                     break
         if entry is not None:
             out.append((f, entry))
@@ -317,7 +319,9 @@ def main(argv=None):
         try:
             with open(rpath) as fh:
                 rdoc = json.load(fh)
-            fails = run_replay_case(mod, rdoc.get("case", rdoc))
+            # a finding shared through "also" is replayed with the oracle of the property it is recorded under
+            rmod = mod if entry.get("_primary", prop_id) == prop_id else importlib.import_module(f"vf.props.{entry['_primary'].lower()}")
+            fails = run_replay_case(rmod, rdoc.get("case", rdoc))
         except Exception:
             traceback.print_exc()
             print(f"HARNESS-ERROR property={prop_id} cannot evaluate replay {rp}")
